@@ -68,6 +68,16 @@ CHECKS = {
         "note": "Phase divisors are restricted to values that fit one double (the repaired code uses a Phase divisor as a regular Angle); |results| <= 2^52",
         "technique": "property-based testing: Hypothesis vs fractions.Fraction oracle",
     },
+    "C08": {
+        "text": "Generated tempo-format polyco texts (1..6 entries, NCOEFF not only multiples of 3, e/E/D/d exponents, signed coefficients, spans 15..1440 min, "
+                "F0 0.1..1000 Hz, RPHASE to 1e12, contiguous/overlapping/gapped spans incl. sub-ms gaps, via StringIO or file, table/text subsets) "
+                "checked against the tempo formula evaluated in exact rationals from the decimal strings: phase (scalar, 1-d, 2-d, column time arrays), "
+                "f0 and derivatives, phasepol, time_at inversion, intervals vs exactly merged spans, ValueError outside, bit-identical repeat predictions "
+                "after other calls (no hidden state). Exploration.",
+        "ref": "DESIGN.md section 4 C08",
+        "note": "tolerance 1e-8 cycles with 30*F0*span <= 4e6 cycles; TMIDs in a leap-second-free range; astropy's parsing of the TMID string trusted",
+        "technique": "property-based testing: grammar-based text generation + exact-rational oracle; repeatability check for hidden state",
+    },
     "C18": {
         "text": "Generated-input search against an independent table of all 7-smooth numbers below 2^64: exhaustive for 0 <= N < 10^6 (10^7 thorough), "
                 "at s-1, s, s+1 and the midpoint for the 7-smooth s < 2^62 (all of them in the thorough tier), Hypothesis integers over [0, 2^62), and "
